@@ -81,7 +81,7 @@ def run(rep, tier, seed):
     g = gen.Gen(rng, max_depth=1)
     from harness import kernels
     kernels.obligations(rep, ['encodeTag', 'encodeLength', 'wrapTags'])
-    kernels.check(rep, drv, seed, 400 if tier == 'quick' else 20000, which=('encodeTag', 'wrapTags'))
+    kernels.check(rep, drv, seed, 400 if tier == 'quick' else 20000, which=('encodeTag', 'wrapTags', 'decodeTag'))
 
     # ---- correspondence: identifier octets of single tags, model vs code
     enc = ber_encoder.AbstractItemEncoder()
